@@ -15,7 +15,7 @@
    case_variant lower upper a c := lower a = lower c /\ upper a = upper c  (what is_case_variant computes).
    toks_ok n toks is the C02 token invariant: spans in bounds of a text of length n, ordered,
    disjoint, word-like tokens non-empty.  History/C18History.v: the code before 41fa706 (FC18a/FC18b). *)
-Require Import Base Overlap Tables_lexer Lexer Condense LexerProofs C18LexStable C18PassesIC C18LexDots C18LexAlnum.
+Require Import Base Overlap Tables_lexer Lexer Condense LexerProofs C18LexStable C18PassesIC C18LexDots C18LexAlnum C18LexCurly.
 Require Import Base Tables_titlecase TitleCase TitleCaseProofs C18History C18Str C18StrProofs.
 From Coq Require Import Sorting.Sorted Lia.
 
@@ -625,11 +625,11 @@ Print Assumptions C18_lex_number_case_blind.
 
 (* THE LEXER HALF WITH DIGITS AND THE APOSTROPHE, for ANY Unicode tables.  Alnum u s: every character is a word
    character (not an ASCII digit), an ASCII digit the tables call numeric, a blank, a punctuation / quote character
-   other than  @ : [ ’ ‘ ＇  — PERIOD AND STRAIGHT APOSTROPHE ALLOWED —, or a character no sub-lexer claims; and at no
+   other than  @ : [ ‘ ＇  — PERIOD, STRAIGHT APOSTROPHE and (phase 6) the CURLY APOSTROPHE U+2019 ALLOWED —, or a character no sub-lexer claims; and at no
    position that follows the start of the text or a character that is NOT a word character (look-behind; the lexer never
    starts a token at an ASCII letter or digit right after a word character: alnum_lex_binv inside the proof) one of
      Q_plural  [A-Za-z0-9][sS] + LA, first character a DIGIT, or lex_hostname_token answers from there (= FC18c)
-     Q_apos    [A-Za-z0-9]'[sS] + LA
+     Q_apos    [A-Za-z0-9]['’][sS] + LA   (phase 6: also with U+2019, so that the class is closed under ’ -> ')
      Q_hex     0[xX][0-9A-Fa-f]
    where LA = end of text or a character that is neither a word character nor a digit.  Then PlainEnglish::parse and
    Document::new_plain_english give the same tokens for two such texts related by Rl (number payloads included).
@@ -655,6 +655,7 @@ Print Assumptions C18_alnum_contains_plain_dotted.
 Theorem C18_str_relex_alnum : forall u lower upper is_lowercase dict_canon dict_meta (src out : text),
   lower_ascii_law lower -> upper_ascii_law upper -> apostrophes_caseless lower upper ->
   ascii_case_faithful lower upper -> dict_meta_case_insensitive lower upper dict_meta ->
+  apostrophe_in_class u ->
   alnum_stable_text u lower upper src ->
   title_case_str u lower upper is_lowercase dict_canon dict_meta src = Ok out ->
   document_tokens u dict_meta out = document_tokens u dict_meta src /\ alnum_text u out = true.
@@ -662,6 +663,7 @@ Proof. exact str_relex_alnum. Qed.
 Check C18_str_relex_alnum : forall u lower upper is_lowercase dict_canon dict_meta (src out : text),
   lower_ascii_law lower -> upper_ascii_law upper -> apostrophes_caseless lower upper ->
   ascii_case_faithful lower upper -> dict_meta_case_insensitive lower upper dict_meta ->
+  apostrophe_in_class u ->
   alnum_stable_text u lower upper src ->
   title_case_str u lower upper is_lowercase dict_canon dict_meta src = Ok out ->
   document_tokens u dict_meta out = document_tokens u dict_meta src /\ alnum_text u out = true.
@@ -673,6 +675,7 @@ Theorem C18_str_idempotent_alnum : forall u lower upper is_lowercase dict_canon 
   lowercase_fixed lower is_lowercase -> apostrophes_lower_fixed lower -> ascii_case_faithful lower upper ->
   dict_case_insensitive lower upper is_lowercase dict_canon dict_meta ->
   dict_meta_case_insensitive lower upper dict_meta ->
+  apostrophe_in_class u ->
   alnum_stable_text u lower upper src ->
   title_case_str u lower upper is_lowercase dict_canon dict_meta src = Ok out ->
   title_case_str u lower upper is_lowercase dict_canon dict_meta out = Ok out.
@@ -682,6 +685,7 @@ Check C18_str_idempotent_alnum : forall u lower upper is_lowercase dict_canon di
   lowercase_fixed lower is_lowercase -> apostrophes_lower_fixed lower -> ascii_case_faithful lower upper ->
   dict_case_insensitive lower upper is_lowercase dict_canon dict_meta ->
   dict_meta_case_insensitive lower upper dict_meta ->
+  apostrophe_in_class u ->
   alnum_stable_text u lower upper src ->
   title_case_str u lower upper is_lowercase dict_canon dict_meta src = Ok out ->
   title_case_str u lower upper is_lowercase dict_canon dict_meta out = Ok out.
@@ -695,11 +699,13 @@ Theorem C18_str_title_case_alnum : forall u lower upper is_lowercase dict_canon 
   dict_case_insensitive lower upper is_lowercase dict_canon dict_meta ->
   (forall w cc, dict_canon w = Some cc -> length w <= length cc) ->
   dict_meta_case_insensitive lower upper dict_meta ->
+  apostrophe_in_class u ->
   alnum_stable_text u lower upper src ->
   exists out,
     title_case_str u lower upper is_lowercase dict_canon dict_meta src = Ok out /\
     length out = length src /\
-    (forall k c, nth_error out k = Some c -> exists a, nth_error src k = Some a /\ case_variant lower upper a c) /\
+    (forall k c, nth_error out k = Some c -> exists a, nth_error src k = Some a /\
+       (case_variant lower upper a c \/ (a = 8217%N /\ c = 39%N))) /\
     (forall toks w0 rest, document_tokens u dict_meta src = Ok toks -> filter tok_word_like toks = w0 :: rest ->
        exists a c, nth_error src (tstart w0) = Some a /\ nth_error out (tstart w0) = Some c /\
                    is_ascii_lower c = false /\ (is_ascii_alpha a = true -> is_ascii_upper c = true)) /\
@@ -712,16 +718,52 @@ Check C18_str_title_case_alnum : forall u lower upper is_lowercase dict_canon di
   dict_case_insensitive lower upper is_lowercase dict_canon dict_meta ->
   (forall w cc, dict_canon w = Some cc -> length w <= length cc) ->
   dict_meta_case_insensitive lower upper dict_meta ->
+  apostrophe_in_class u ->
   alnum_stable_text u lower upper src ->
   exists out,
     title_case_str u lower upper is_lowercase dict_canon dict_meta src = Ok out /\
     length out = length src /\
-    (forall k c, nth_error out k = Some c -> exists a, nth_error src k = Some a /\ case_variant lower upper a c) /\
+    (forall k c, nth_error out k = Some c -> exists a, nth_error src k = Some a /\
+       (case_variant lower upper a c \/ (a = 8217%N /\ c = 39%N))) /\
     (forall toks w0 rest, document_tokens u dict_meta src = Ok toks -> filter tok_word_like toks = w0 :: rest ->
        exists a c, nth_error src (tstart w0) = Some a /\ nth_error out (tstart w0) = Some c /\
                    is_ascii_lower c = false /\ (is_ascii_alpha a = true -> is_ascii_upper c = true)) /\
     title_case_str u lower upper is_lowercase dict_canon dict_meta out = Ok out.
 Print Assumptions C18_str_title_case_alnum.
+
+(* PHASE 6: THE CURLY APOSTROPHE.  Title-casing writes ' over U+2019 inside a known proper noun (the guarded copy).
+   Ra a c: a = c, or a = U+2019 and c = '.  For ANY Unicode tables, two texts of the alnum class (which now
+   contains U+2019 and excludes Q_apos in both spellings) related by Ra are cut alike by PlainEnglish::parse and by
+   Document::new_plain_english: both apostrophes are Punctuation::Apostrophe, one character, no word / hostname /
+   float character; lex_number reads only the longest prefix of float characters, the same list in both texts;
+   lex_plural_digit's `'s` branch (the only place that tells them apart) is the excluded pattern.
+   Witnesses: C18_curly_patterns_witnessed *)
+Theorem C18_lex_curly_stable : forall u (s s' : text),
+  Forall2 Ra s s' -> Alnum u s -> Alnum u s' ->
+  plain_parse u s' = plain_parse u s /\ document_plain u s' = document_plain u s.
+Proof. exact lex_curly_stable. Qed.
+Check C18_lex_curly_stable : forall u (s s' : text),
+  Forall2 Ra s s' -> Alnum u s -> Alnum u s' ->
+  plain_parse u s' = plain_parse u s /\ document_plain u s' = document_plain u s.
+Print Assumptions C18_lex_curly_stable.
+
+(* both changes title-casing can make at once: Rl4 u a c = Rl u a c (case) or (a = U+2019 and c = ') *)
+Theorem C18_lex_alnum4_stable : forall u (s s' : text),
+  Forall2 (Rl4 u) s s' -> Alnum u s -> Alnum u s' ->
+  plain_parse u s' = plain_parse u s /\ document_plain u s' = document_plain u s.
+Proof. exact lex_alnum4_stable. Qed.
+Check C18_lex_alnum4_stable : forall u (s s' : text),
+  Forall2 (Rl4 u) s s' -> Alnum u s -> Alnum u s' ->
+  plain_parse u s' = plain_parse u s /\ document_plain u s' = document_plain u s.
+Print Assumptions C18_lex_alnum4_stable.
+
+(* the class is closed under Rl4 as soon as the image consists of characters of the class (the patterns are invariant) *)
+Theorem C18_alnum_closed_rl4 : forall u (s s' : text),
+  Forall2 (Rl4 u) s s' -> Alnum u s -> Forall (fun c => char3 u c = true) s' -> Alnum u s'.
+Proof. exact alnum_closed_rl4. Qed.
+Check C18_alnum_closed_rl4 : forall u (s s' : text),
+  Forall2 (Rl4 u) s s' -> Alnum u s -> Forall (fun c => char3 u c = true) s' -> Alnum u s'.
+Print Assumptions C18_alnum_closed_rl4.
 
 (* ---------- non-vacuity ---------- *)
 (* "the wordpress of a" -> "The WordPress of A" over an example dictionary that finds words by their
@@ -964,3 +1006,54 @@ Example C18_alnum_refines :
    alnum_text ascii_uni [32; 51; 115]%N = false) /\
   alnum_text ascii_uni ref_src = false /\ alnum_text ascii_uni wit_src = false.
 Proof. split; [exact alnum_refines_dotted|]. split; vm_compute; reflexivity. Qed.
+
+(* ---------- phase 6: the curly apostrophe ---------- *)
+(* "the wordpress isn’t john’s" and the same text with the FIRST apostrophe straightened *)
+Definition curly_s : text :=
+  [116; 104; 101; 32; 119; 111; 114; 100; 112; 114; 101; 115; 115; 32; 105; 115; 110; 8217; 116; 32; 106; 111; 104; 110; 8217; 115]%N.
+Definition curly_s' : text :=
+  [116; 104; 101; 32; 119; 111; 114; 100; 112; 114; 101; 115; 115; 32; 105; 115; 110; 39; 116; 32; 106; 111; 104; 110; 8217; 115]%N.
+Example C18_lex_curly_nonvacuous :
+  apostrophe_in_class ascii_uni /\ Forall2 Ra curly_s curly_s' /\ curly_s' <> curly_s /\
+  alnum_text ascii_uni curly_s = true /\ alnum_text ascii_uni curly_s' = true /\
+  plain_parse ascii_uni curly_s' = plain_parse ascii_uni curly_s /\
+  (exists ts, plain_parse ascii_uni curly_s = Ok ts /\ length ts = 11).
+Proof.
+  split; [vm_compute; reflexivity|]. split.
+  { unfold curly_s, curly_s'. repeat (constructor; [first [left; reflexivity | right; split; reflexivity]|]). constructor. }
+  split; [intros H; vm_compute in H; discriminate|].
+  split; [vm_compute; reflexivity|]. split; [vm_compute; reflexivity|]. split; [vm_compute; reflexivity|].
+  eexists. split; vm_compute; reflexivity.
+Qed.
+
+(* the excluded pattern is needed: `a’s` is Word Apostrophe Word, `a's` one Word (lex_plural_digit); and U+2018 must
+   stay outside the class: `a‘b` has an Unlintable token where `a'b` has an Apostrophe *)
+Example C18_curly_patterns_witnessed :
+  (Forall2 Ra [97; 8217; 115]%N [97; 39; 115]%N /\ forallb (char3 ascii_uni) [97; 8217; 115]%N = true /\
+   q_apos ascii_uni [97; 8217; 115]%N = true /\ alnum_text ascii_uni [97; 8217; 115]%N = false /\
+   plain_parse ascii_uni [97; 39; 115]%N <> plain_parse ascii_uni [97; 8217; 115]%N) /\
+  (char3 ascii_uni 8216 = false /\ char3 ascii_uni 65287 = false /\
+   plain_parse ascii_uni [97; 39; 98]%N <> plain_parse ascii_uni [97; 8216; 98]%N).
+Proof.
+  split.
+  - split; [repeat (constructor; [first [left; reflexivity | right; split; reflexivity]|]); constructor|].
+    split; [vm_compute; reflexivity|]. split; [vm_compute; reflexivity|]. split; [vm_compute; reflexivity|].
+    intros H; vm_compute in H; discriminate.
+  - split; [vm_compute; reflexivity|]. split; [vm_compute; reflexivity|]. intros H; vm_compute in H; discriminate.
+Qed.
+
+(* the string-level theorems on a text WITH curly apostrophes: in the stable class, changes, fixed point afterwards,
+   output in the class.  (The example dictionary has no proper noun with an apostrophe: the straightening step itself
+   is exercised by C18_lex_curly_nonvacuous at the lexer level and by the harness on the curated dictionary.) *)
+Example C18_curly_str_nonvacuous :
+  alnum_stable_text ascii_uni ex_lower ex_upper curly_s /\
+  exists out,
+    title_case_str ascii_uni ex_lower ex_upper ex_islower ex_canon ex_meta curly_s = Ok out /\ out <> curly_s /\
+    title_case_str ascii_uni ex_lower ex_upper ex_islower ex_canon ex_meta out = Ok out /\
+    document_tokens ascii_uni ex_meta out = document_tokens ascii_uni ex_meta curly_s /\
+    alnum_text ascii_uni out = true.
+Proof.
+  split; [apply alnum_stable_of_closed; [exact ex_alnum_case_closed|vm_compute; reflexivity]|].
+  eexists. split; [vm_compute; reflexivity|]. split; [intros H; vm_compute in H; discriminate|].
+  split; [vm_compute; reflexivity|]. split; vm_compute; reflexivity.
+Qed.
